@@ -111,6 +111,39 @@ class Acc:
         self.cases_seen = 0
         self.nontrivial = 0
         self.sizes = []
+        self.stalls = []      # harness runs that exceeded the batch timeout (backtrace of all threads)
+
+
+class _Res:
+    def __init__(self, rc, out, err):
+        self.returncode, self.stdout, self.stderr = rc, out, err
+
+
+def run_harness_watched(acc, exe, pf, timeout):
+    """run the harness on one program file; on a stall take a backtrace of every thread (for the evidence) before
+    killing it and return None"""
+    import subprocess
+    env = dict(os.environ)
+    p = subprocess.Popen([exe, pf], stdout=subprocess.PIPE, stderr=subprocess.PIPE, text=True, env=env)
+    try:
+        out, err = p.communicate(timeout=timeout)
+        return _Res(p.returncode, out, err)
+    except subprocess.TimeoutExpired:
+        bt = ""
+        try:
+            g = subprocess.run(["gdb", "-p", str(p.pid), "-batch", "-ex", "thread apply all bt 12"],
+                               stdout=subprocess.PIPE, stderr=subprocess.STDOUT, text=True, timeout=120)
+            bt = "\n".join(l[:300] for l in g.stdout.splitlines() if l.startswith(("#", "Thread")))[:6000]
+        except Exception as e:  # gdb missing / ptrace refused
+            bt = "no backtrace: %r" % (e,)
+        p.kill()
+        try:
+            p.communicate(timeout=30)
+        except Exception:
+            pass
+        acc.stalls.append({"program_file": pf, "timeout_s": timeout, "backtrace": bt})
+        common.log("harness stalled on %s (> %d s); backtrace recorded, retrying" % (pf, timeout))
+        return None
 
 
 def process_batch(rep, acc, lines, metab, exe, pf, timeout):
@@ -124,7 +157,15 @@ def process_batch(rep, acc, lines, metab, exe, pf, timeout):
             cur = in_cases.setdefault(ln.split()[1], [])
         if cur is not None:
             cur.append(ln)
-    r = common.run_harness(exe, [pf], timeout=timeout)
+    r = run_harness_watched(acc, exe, pf, timeout)
+    if r is None:      # second attempt: an intermittent stall must not look like a violation (never alarm on timing)
+        r = run_harness_watched(acc, exe, pf, timeout)
+    if r is None:
+        rep.violation("heightmap harness did not finish a batch of %d cases within %d s, twice (backtraces in replay)"
+                      % (len(in_cases), timeout),
+                      {"kind": "harness-timeout", "program_file": pf, "backtraces": acc.stalls[-2:],
+                       "how": ".build/plain/harness/heightmap %s" % pf}, no_input=True)
+        return in_cases
     if r.returncode != 0:
         rep.violation("heightmap harness crashed rc=%d: %s" % (r.returncode, r.stderr[-800:]),
                       {"kind": "harness-crash", "program_file": pf, "program": lines[:400], "stderr": r.stderr[-4000:]})
@@ -297,7 +338,7 @@ def run(rep, tier, seed, replay=None):
     for b in range(0, len(all_cases), BATCH):
         lines = [ln for cs in all_cases[b:b + BATCH] for ln in cs]
         pf = os.path.join(work, "c09-%d-%s-%d.prog" % (seed, tier, b // BATCH))
-        in_cases = process_batch(rep, acc, lines, metab, exe, pf, 600 if tier == "quick" else 1500)
+        in_cases = process_batch(rep, acc, lines, metab, exe, pf, 400 if tier == "quick" else 900)
         if not samples:
             samples = [in_cases[k] for k in list(in_cases)[-2:]]
 
@@ -340,6 +381,7 @@ def run(rep, tier, seed, replay=None):
                 "recursion to run (counted per case, not per worker count)",
         "correspondence": {"cases": acc.cases_seen, "verdicts": acc.oks, "mismatch": acc.mismatches, **acc.stats},
         "thread_sanitizer": tsan,
+        "harness_stalls": acc.stalls,
         "distribution": {
             "shapes": shapes, "opcode_histogram": dict(sorted(ophist.items())), "corpus_cases": len(all_cases) - len(meta),
             "grids": {"cases": len(sizes), "single_voxel_axis": sum(1 for s in sizes if 1 in s),
